@@ -5,6 +5,7 @@ import enum
 import io
 import re
 import sys
+import tokenize  # (the standard library's: only its open() is used)
 import unicodedata  # (CPython loads it on the first \N{...} escape it decodes; see _FSTRING_TEXT_PIECES)
 from collections.abc import Callable
 from typing import TYPE_CHECKING, Any, ClassVar, Literal, NoReturn, TypeVar, cast
@@ -1090,7 +1091,9 @@ class Parser:
         verbose: bool = False,
     ) -> ast.Module | None:
         """Parse a file or string."""
-        with open(path, encoding="utf-8-sig") as f:  # a UTF-8 byte order mark is not part of the source (as in CPython)
+        # decoded as CPython decodes a source file: UTF-8 unless a coding declaration (PEP 263) says otherwise, and a UTF-8
+        # byte order mark is not part of the source
+        with tokenize.open(path) as f:
             lines: dict[int, str] = {}
 
             def readline() -> str:
